@@ -6,5 +6,6 @@ NEXT Next
 INVARIANT RoundTrip
 INVARIANT CanonicalAccepted
 INVARIANT SizeIsLength
+INVARIANT ExtensionSignedIffFee
 POSTCONDITION ExportSingles
 CHECK_DEADLOCK FALSE
